@@ -177,7 +177,7 @@ pub open spec fn compile_shape(fs: Seq<&str>, right: bool, left: bool, complete:
 //@ ENDSUBST
 //@ SUBST R9
     static SPECIAL_RE: Lazy<Regex> =
-        Lazy::new(|| Regex::new(r"([\|\.\$\+\?\{\}\(\)\[\]])").unwrap());
+        Lazy::new(|| Regex::new(r"([\\\|\.\$\+\?\{\}\(\)\[\]])").unwrap());
 //@ WITH
 //@ ENDSUBST
 //@ SUBST R9
